@@ -296,6 +296,7 @@ func lemma_block_no_leak(i *ignore, meta *ast.Meta) {
 
 // the sweep: no reachable panic in any function of the package, for any (well-formed) syntax tree
 //@ forall-funcs .* [C11]
+//@   except ^lemma_|^verif
 //@   requires? l != nil && l.ignore != nil
 //@   requires? ctx != nil
 //@   safe
